@@ -229,6 +229,15 @@ impl TransformerContext {
         // TODO: this logic is duplicated in `impl EventGen for SvgElement` so
         // it works in both '^' contexts and root SVG bbox generation context.
         // Can't just move this to SvgElement::bbox() as it needs ElementMap.
+        if el.name == "use" || el.name == "reuse" {
+            // the instance's own transform applies to it where its x / y have put it
+            if let (Some(transform), Some(ref mut bbox)) = (el.get_attr("transform"), &mut el_bbox)
+            {
+                let transform: crate::transform_attr::TransformAttr = transform.parse()?;
+                el_bbox = Some(transform.apply(bbox));
+            }
+        }
+
         // (only a reference to a <clipPath> limits the box: `none`, basic shapes and
         // references elsewhere are plain SVG / CSS we leave alone)
         if let (Some(clip_id), Some(ref mut bbox)) = (
